@@ -673,6 +673,11 @@ impl World {
                 cache_len: part.cache.as_ref().map(|c| c.len() as u64),
                 cache_first: part.cache.as_ref().and_then(|c| if c.is_empty() { None } else { Some(c[0].offset) }),
                 topic_size: topic.get_size_bytes().as_bytes_u64(),
+                topic_max_size: match topic.max_topic_size {
+                    iggy::utils::topic_size::MaxTopicSize::Unlimited => 0,
+                    iggy::utils::topic_size::MaxTopicSize::Custom(b) => b.as_bytes_u64(),
+                    iggy::utils::topic_size::MaxTopicSize::ServerDefault => u64::MAX,
+                },
                 topic_messages: topic.get_messages_count(),
                 segs,
             }
@@ -702,6 +707,8 @@ pub struct PartFacts {
     pub cache_len: Option<u64>,
     pub cache_first: Option<u64>,
     pub topic_size: u64,
+    /// the limit the topic holds: 0 = unlimited, u64::MAX = unresolved "server default"
+    pub topic_max_size: u64,
     pub topic_messages: u64,
     pub segs: Vec<SegFacts>,
 }
